@@ -3,5 +3,7 @@ CONSTANTS
   MaxDepth = 2
   SampleSize = 5000
   NegUnionFlipsEach = FALSE
+  FalsyObjs = {}
+  OperandTruthFilter = FALSE
 SPECIFICATION Spec
 CONSTRAINT Emit
